@@ -746,6 +746,16 @@ private:
     accumContentAsByteDirect(XalanDOMChar   ch);
 
     /**
+     * Throw an exception if a character that can only
+     * be written literally is not representable in the
+     * encoding.
+     *
+     * @ch the character to check.
+     */
+    void
+    checkNameChar(XalanUnicodeChar  ch);
+
+    /**
      * Append a wide character to the buffer.
      * Characters that are not representable
      * in the encoding are not written as
